@@ -247,7 +247,7 @@ func (ch c06) Run(c *core.Ctx) {
 	// random part
 	nrand, rlen := 20000, 12
 	if c.Tier == "thorough" {
-		nrand, rlen = 1000000, 30
+		nrand, rlen = 3000000, 30
 	}
 	for i := c.Batch; i < nrand; i += nb {
 		idx = 1000000 + i
